@@ -47,6 +47,9 @@ def run_property(prop: str, tier: str, seed: int) -> int:
     except ImportError as exc:
         print('ANALYSIS-ERROR property=%s no checker module: %s' % (prop, exc))
         return 2
+    except Exception as exc:      # a defect of the checker itself is not a verdict about the repository
+        print('ANALYSIS-ERROR property=%s checker module cannot be loaded: %s: %s' % (prop, type(exc).__name__, exc))
+        return 2
     try:
         repo = Repo()
         rep = Report(prop)
